@@ -135,6 +135,11 @@ func printHarnessResult(hr *HarnessResult, verbose bool) {
 			fmt.Fprintf(os.Stderr, "        nd:%s\n", sb.String())
 		}
 	}
+	if forkSitesOn {
+		for k, n := range forkSites {
+			fmt.Fprintf(os.Stderr, "   forksite %6d %s\n", n, k)
+		}
+	}
 	if verbose && os.Getenv("VERIF_DEBUG") != "" {
 		fmt.Fprintf(os.Stderr, "   decisions histogram: %v\n", hr.DecHist)
 	}
